@@ -33,9 +33,24 @@ MUTS = {
  "M21-revert-body-opsets-fix": ("src/spox/_build.py", ".with_opset(\n                *self.model_opset_req\n            )", ""),
  "M22-with-opset-shares-build-cache": ("src/spox/_graph.py", "self, _extra_opset_req=extra_opset_req, _build_result=_build.Cached()", "self, _extra_opset_req=extra_opset_req"),
  "M23-model-req-misses-extra": ("src/spox/_build.py", "set(self.main._extra_opset_req or ()).union(", "set().union("),
+ "H3-model-req-from-main-graph-only": ("src/spox/_build.py", "*(node.opset_req for graph in self.graphs for node in self.scope_own[graph])", "*(node.opset_req for node in self.scope_own[self.main])"),
 }
 # several edits at once: (name, [(file, old, new), ...])
 MULTI = {
+ "H1-function-body-req-moved-to-update-metadata": [
+    ("src/spox/_function.py", "        return node_opset_req | self.func_graph._get_build_result().opset_req", "        return node_opset_req"),
+    ("src/spox/_function.py", "        super().update_metadata(opset_req, initializers, functions)\n        functions.append(self)", "        super().update_metadata(opset_req, initializers, functions)\n        opset_req.update(self.func_graph._get_build_result().opset_req)\n        functions.append(self)"),
+ ],
+ "H2-same-schema-by-signature": [
+    ("src/spox/_adapt.py", "            version_mismatch = source_schema != target_schema", """            def _sig(s):
+                return (
+                    [(p.name, p.option, p.type_str) for p in s.inputs],
+                    [(p.name, p.option, p.type_str) for p in s.outputs],
+                    sorted((n, a.type, a.required) for n, a in s.attributes.items()),
+                    sorted((c.type_param_str, tuple(c.allowed_type_strs)) for c in s.type_constraints),
+                )
+            version_mismatch = _sig(source_schema) != _sig(target_schema)"""),
+ ],
  "R1-rename-internals-and-policy-min": [
     ("src/spox/_adapt.py", "def adapt_node(", "def _adapt_single("),
     ("src/spox/_adapt.py", "    adapted = adapt_node(", "    adapted = _adapt_single("),
